@@ -40,10 +40,10 @@ def Cfg.at (g : Cfg) (L : Bytes) : Cfg := { g with L0 := L }
 
 theorem Cfg.Shape.at {g : Cfg} (h : g.Shape) (L : Bytes) : (g.at L).Shape := by
   cases h with
-  | responder hr hb hf hp hX2 hX hU hOt hrv hs hfu => exact .responder hr hb hf hp hX2 hX hU hOt hrv hs hfu
+  | responderU hr hb hf hp hX2 hX hU hOt hrv hs hfu => exact .responderU hr hb hf hp hX2 hX hU hOt hrv hs hfu
   | authorizer hr hX hU hOt hrv hs hfu => exact .authorizer hr hX hU hOt hrv hs hfu
-  | filter hr hb hb2 hf hf2 hp hp2 hX2 hX hU hOt hrv hs hfu =>
-    exact .filter hr hb hb2 hf hf2 hp hp2 hX2 hX hU hOt hrv hs hfu
+  | filterU hr hb hb2 hf hf2 hp hp2 hX2 hX hU hOt hrv hs hfu =>
+    exact .filterU hr hb hb2 hf hf2 hp hp2 hX2 hX hU hOt hrv hs hfu
 
 theorem Cfg.OK.at {g : Cfg} (ok : g.OK) (L : Bytes) : (g.at L).OK :=
   ⟨ok.wf, ok.pairs, ok.noise, ok.shape.at L⟩
@@ -162,5 +162,67 @@ theorem chain_run : ∀ (gs : List Cfg) (g : Cfg) (c : Conn) (n fuel : Nat),
         · rcases List.mem_cons.1 hg' with rfl | hg''
           · exact hall2 (g'.at (g.L3 O1 O2)) List.mem_cons_self
           · exact hall2 g' (List.mem_cons_of_mem _ hg'')
+
+/-- `chain_run` without any bound on the size of the requests -/
+theorem chain_run' : ∀ (gs : List Cfg) (g : Cfg) (c : Conn) (n fuel : Nat),
+    Stage g c → c.env.segs = [] → c.env.tr.endMode = .pend → ans c.env.tr + 1 ≤ fuel →
+    g.OK → (∀ g' ∈ gs, g'.OK) → ChainFrom g gs →
+    ∃ c' fin, closedLoop fuel (gs.map Cfg.W) c n = (c', fin) ∧
+      (∀ s, s ∈ c.env.tr.events → s ∈ c'.env.tr.events) ∧ c'.env.tr.endMode = .pend ∧
+      LogChain g.L0 (g :: gs) c'.env.tr.wlog ∧ ChainEnd (lastP g gs) c' fin ∧
+      (∀ g' ∈ g :: gs, hsEvent g'.p.request ∈ c'.env.tr.events ∧ ∀ s ∈ g'.revs, s ∈ c'.env.tr.events) := by
+  intro gs
+  induction gs with
+  | nil =>
+    intro g c n fuel hst hsegs hem hf ok _ _
+    obtain ⟨c', ⟨hem', _, _, hevm⟩, O1, O2, hO, hres⟩ :=
+      run_from_stage' ok (ans c.env.tr) c n fuel hst hsegs (Nat.le_refl _) hf
+    rcases hres with ⟨hrun, hfin⟩ | ⟨hrun, hpk⟩
+    · refine ⟨c', "RET", hrun, hevm, hem'.trans hem, ⟨O1, O2, hO, hfin.log⟩,
+        ⟨hfin.ev.1, hfin.sc, Or.inl ⟨rfl, hfin.ph, hfin.why⟩⟩, fun g' hg' => ?_⟩
+      rw [List.mem_singleton.1 hg']
+      exact ⟨hfin.ev.2, hfin.re⟩
+    · refine ⟨c', "STALL", hrun, hevm, hem'.trans hem, ⟨O1, O2, hO, hpk.log⟩,
+        ⟨hpk.ev.1, hpk.sc, Or.inr ⟨rfl, hpk.ph, hpk.inp, hpk.keep⟩⟩, fun g' hg' => ?_⟩
+      rw [List.mem_singleton.1 hg']
+      exact ⟨hpk.ev.2, hpk.re⟩
+  | cons g2 gs ih =>
+    intro g c n fuel hst hsegs hem hf ok hall hch
+    obtain ⟨hl, hch2⟩ := hch
+    obtain ⟨c', ⟨hem', hans', hsegs', hevm⟩, O1, O2, hO, hres⟩ :=
+      run_from_stage' ok (ans c.env.tr) c n fuel hst hsegs (Nat.le_refl _) hf
+    rcases hres with ⟨hrun, hfin⟩ | ⟨hrun, hpk⟩
+    · exfalso
+      rcases hfin.why with h | ⟨_, h⟩
+      · have := hl.keep; omega
+      · rw [hem', hem] at h; cases h
+    · have hst2 := next_stage (g2 := g2.at (g.L3 O1 O2)) hpk (hl.at_right _) rfl
+      have ok2 := hall g2 (List.mem_cons_self)
+      obtain ⟨c2, fin2, hrun2, hevm2, hem2, hlog2, hend2, hall2⟩ :=
+        ih (g2.at (g.L3 O1 O2)) (feed c' g2.W) (n + 1000) fuel hst2 hsegs'
+          (by show c'.env.tr.endMode = .pend; rw [hem', hem])
+          (by show ans c'.env.tr + 1 ≤ fuel; omega) (ok2.at _)
+          (fun g' hg' => hall g' (List.mem_cons_of_mem _ hg')) (hch2.at_left _)
+      obtain ⟨L', hL'⟩ := lastP_at g2 gs (g.L3 O1 O2)
+      refine ⟨c2, fin2, ?_, fun s hs => hevm2 s (hevm s hs), hem2, ⟨O1, O2, hO, ?_⟩, ?_, ?_⟩
+      · simp only [closedLoop, List.map_cons, hrun, if_true]
+        exact hrun2
+      · have : (g.at g.L0) = g := by cases g; rfl
+        rw [this]
+        obtain ⟨P1, P2, hP, hrest⟩ := hlog2
+        exact ⟨P1, P2, hP, by
+          have h2 : ((g2.at (g.L3 O1 O2)).at (g2.at (g.L3 O1 O2)).L0) = g2.at (g.L3 O1 O2) := rfl
+          rw [h2] at hrest
+          exact hrest⟩
+      · rw [lastP_cons]
+        rw [hL'] at hend2
+        exact hend2.at
+      · intro g' hg'
+        rcases List.mem_cons.1 hg' with rfl | hg'
+        · exact ⟨hevm2 _ hpk.ev.2, fun s hs => hevm2 _ (hpk.re s hs)⟩
+        · rcases List.mem_cons.1 hg' with rfl | hg''
+          · exact hall2 (g'.at (g.L3 O1 O2)) List.mem_cons_self
+          · exact hall2 g' (List.mem_cons_of_mem _ hg'')
+
 
 end Fcgi.E2E
